@@ -590,11 +590,19 @@ qb_ipcs_connection_unref(struct qb_ipcs_connection *c)
 	}
 }
 
+static void
+_rerun_connection_closed(void *data)
+{
+	struct qb_ipcs_connection *c = (struct qb_ipcs_connection *)data;
+
+	c->closed_retry_scheduled = QB_FALSE;
+	qb_ipcs_disconnect(c);
+}
+
 void
 qb_ipcs_disconnect(struct qb_ipcs_connection *c)
 {
 	int32_t res = 0;
-	qb_loop_job_dispatch_fn rerun_job;
 
 	if (c == NULL) {
 		return;
@@ -621,7 +629,17 @@ qb_ipcs_disconnect(struct qb_ipcs_connection *c)
 		c->service->stats.closed_connections++;
 	}
 	if (c->state == QB_IPCS_CONNECTION_SHUTTING_DOWN) {
-		int scheduled_retry = 0;
+		if (c->closed_done || c->closed_retry_scheduled) {
+			/*
+			 * The connection has been closed already (it only
+			 * lives on because somebody else holds a reference),
+			 * or the job that calls connection_closed() again
+			 * is on its way: calling connection_closed() and
+			 * dropping the initial reference is its business,
+			 * not that of yet another qb_ipcs_disconnect().
+			 */
+			return;
+		}
 		res = 0;
 		if (c->service->serv_fns.connection_closed) {
 			res = c->service->serv_fns.connection_closed(c);
@@ -629,18 +647,17 @@ qb_ipcs_disconnect(struct qb_ipcs_connection *c)
 		if (res != 0) {
 			/* OK, so they want the connection_closed
 			 * function re-run */
-			rerun_job =
-			    (qb_loop_job_dispatch_fn) qb_ipcs_disconnect;
-			res = c->service->poll_fns.job_add(QB_LOOP_LOW,
-							   c, rerun_job);
+			res = c->service->poll_fns.job_add(QB_LOOP_LOW, c,
+							   _rerun_connection_closed);
 			if (res == 0) {
 				/* this function is going to be called again.
 				 * so hold off on the unref */
-				scheduled_retry = 1;
+				c->closed_retry_scheduled = QB_TRUE;
 			}
 		}
 		remove_tempdir(c->description);
-		if (scheduled_retry == 0) {
+		if (!c->closed_retry_scheduled) {
+			c->closed_done = QB_TRUE;
 			/* This removes the initial alloc ref */
 			qb_ipcs_connection_unref(c);
 		}
